@@ -484,24 +484,30 @@ def _init_extra(res: C.Result):
 
 
 def _with_pool(fn):
+    """worker pool whose processes (and the code under test in them) keep every temporary file under one scratch
+    directory of this run, removed at the end whatever the workers left behind"""
     D.fast_tmp()
+    old_tmp = tempfile.tempdir
+    root = tempfile.mkdtemp(prefix="pyrtma_verif_c17_")
+    tempfile.tempdir = root
     d = tempfile.mkdtemp(prefix="pyrtma_verif_dldefs_")
     D.write_defs(d)
     os.environ["VERIF_DL_DEFS_DIR"] = d
     nproc = min(16, os.cpu_count() or 2)
     pool = None
-    if nproc > 1:
-        ctx = mp.get_context("fork")
-        ev = ctx.Event()
-        pool = ctx.Pool(nproc, initializer=_init_worker, initargs=(ev,))
-        pool._verif_stop = ev
     try:
+        if nproc > 1:
+            ctx = mp.get_context("fork")
+            ev = ctx.Event()
+            pool = ctx.Pool(nproc, initializer=_init_worker, initargs=(ev,))
+            pool._verif_stop = ev
         return fn(pool)
     finally:
         if pool:
             pool.close()
             pool.join()
-        shutil.rmtree(d, ignore_errors=True)
+        tempfile.tempdir = old_tmp
+        shutil.rmtree(root, ignore_errors=True)
         os.environ.pop("VERIF_DL_DEFS_DIR", None)
 
 
